@@ -73,7 +73,7 @@ fn rebuild(cfg: &Cfg, hasher: &TableHasher, ops: &[Op]) -> (Sut, u32) {
     let pre = cfg.pre_ops();
     for op in pre.iter().chain(ops.iter()) {
         sut.apply(cfg, *op, vid);
-        if let Op::Ins(..) = op {
+        if op.takes_vid() {
             vid += 1;
         }
     }
@@ -630,7 +630,7 @@ pub fn selftest(depth: usize) -> String {
                 let mut vid = 1;
                 for op in &ops {
                     obs.push(sut.apply(&cfg, *op, vid));
-                    if let Op::Ins(..) = op {
+                    if op.takes_vid() {
                         vid += 1;
                     }
                     if with_snap {
